@@ -102,7 +102,8 @@ def render_doc(f, doc, ind):
     if doc is None:
         return []
     x = f.xs_prefix
-    return [f'{ind}<{x}:annotation><{x}:documentation>{escape(doc)}</{x}:documentation></{x}:annotation>']
+    text = escape(doc).replace("\r", "&#13;")
+    return [f'{ind}<{x}:annotation><{x}:documentation>{text}</{x}:documentation></{x}:annotation>']
 
 
 def render_component(f, c, files, ind="  "):
